@@ -243,12 +243,13 @@ CLAIMED = {
          "payload below 2^24 (header_roundtrip) with complete write->read round trips proved for DATA without and WITH padding "
          "(data_roundtrip, data_padded_roundtrip), HEADERS without padding/priority incl. the CONTINUATION expectation "
          "(headers_roundtrip), HEADERS with a priority block (headers_priority_roundtrip) and with padding "
-         "(headers_padded_roundtrip), CONTINUATION for a reader that expects it (continuation_roundtrip), PUSH_PROMISE "
-         "(push_promise_roundtrip), PRIORITY, RST_STREAM, SETTINGS (any list, order kept), PING, GOAWAY and WINDOW_UPDATE, each for "
+         "(headers_padded_roundtrip) and with both (headers_padded_priority_roundtrip), CONTINUATION for a reader that expects "
+         "it (continuation_roundtrip), PUSH_PROMISE without and with padding (push_promise_roundtrip, "
+         "push_promise_padded_roundtrip), PRIORITY, RST_STREAM, SETTINGS (any list, order kept), PING, GOAWAY and WINDOW_UPDATE, each for "
          "every parameter value the writer accepts; the reader is a total function. Exact differential on all Write* methods and on the reader over written / raw / mutated / "
          "truncated bytes under several read limits; ORACLES: read-back of everything the writer accepts, CONTINUATION reassembly"),
-   note=("PARTIAL: HEADERS with padding AND priority together, padded PUSH_PROMISE and the reassembly of a header block over "
-         "CONTINUATION frames (ReadMetaHeaders) are decided by the read-back oracles, everything else by theorem. Trusted: Lean kernel + standard axioms; harness. Found and fixed D13"),
+   note=("PARTIAL: the reassembly of a header block over CONTINUATION frames with HPACK decoding and field validation "
+         "(ReadMetaHeaders) is decided by the read-back oracles, every single frame layout by theorem. Trusted: Lean kernel + standard axioms; harness. Found and fixed D13"),
    technique="Lean 4 theorems over a full executable codec model + differential with read-back oracle",
    design='7/C19'),
  'C20': dict(
